@@ -1,7 +1,7 @@
 (* C06 property theorems: statements only, each closed by `exact`, with Print Assumptions. *)
 From Coq Require Import ZArith QArith List Bool.
-From Coq Require Import Lia.
-From QE Require Import Base.Num Base.LinAlg Base.Gauss C06.Model C06.Proofs C06.ProofsFull.
+From Coq Require Import Lia Lqa.
+From QE Require Import Base.Num Base.LinAlg Base.Gauss C06.Model C06.Proofs C06.ProofsFull C06.ProofsPSD.
 Import ListNotations.
 Local Open Scope Q_scope.
 
@@ -163,6 +163,77 @@ Example riccati_transfer_example :
    meq 1 1 (mmul 1 1 1 (madd 1 1 (mid 1) (mmul 1 1 1 [[2#3]] [[1#3]])) [[9#11]]) (mid 1)).
 Proof.
   cbv zeta. repeat split; try m11; vm_compute; reflexivity.
+Qed.
+
+(* --- symmetry and positive semidefiniteness (exact over Q, every dimension); mpsd n M := forall x, 0 <= x'Mx --- *)
+
+(* (a) Lyapunov: for symmetric PSD B every doubling iterate gamma_k is symmetric and PSD and the iterates increase *)
+Theorem C06_lyap_iterate_sym_psd : forall n (A B : list (list Q)) k,
+  msym n B -> (forall x : list Q, 0 <= qform n x B) ->
+  msym n (snd (lyap_iter k n A B)) /\
+  (forall x : list Q, 0 <= qform n x (snd (lyap_iter k n A B))) /\
+  (forall x : list Q, 0 <= qform n x (msub n n (snd (lyap_iter (S k) n A B)) (snd (lyap_iter k n A B)))).
+Proof. exact lyap_iterate_sym_psd. Qed.
+Print Assumptions C06_lyap_iterate_sym_psd.
+
+(* hence the value returned by the solver (loop as written) is symmetric PSD *)
+Theorem C06_lyap_solver_sym_psd : forall tol max_it n (A B : list (list Q)) k X,
+  msym n B -> (forall x : list Q, 0 <= qform n x B) ->
+  solve_discrete_lyapunov tol max_it n A B = Some (k, X) ->
+  msym n X /\ (forall x : list Q, 0 <= qform n x X).
+Proof. exact lyap_solver_sym_psd. Qed.
+Print Assumptions C06_lyap_solver_sym_psd.
+
+(* (b) Riccati doubling step: for symmetric PSD G, H and a two-sided inverse W of I + G H the doubled G1, H1 are
+   symmetric PSD and G1 - G, H1 - H are PSD.  No square roots: x'(HW)x = y'Hy + (Hy)'G(Hy) with y = W x.
+   PARTIAL with respect to the solver: the model's H_0 = gamma A'A_0 - Q~ carries the -gamma I shift and is in
+   general indefinite (H_k -> X - gamma I), so PSD of H_k, and PSD of the returned X = H_k + gamma I, are NOT
+   consequences of this step; they stay with the mpmath oracle. *)
+Theorem C06_riccati_step_sym_psd_partial : forall n (A G H A1 G1 H1 W : list (list Q)),
+  msym n G -> msym n H ->
+  (forall x : list Q, 0 <= qform n x G) -> (forall x : list Q, 0 <= qform n x H) ->
+  (meq n n (mmul n n n W (madd n n (mid n) (mmul n n n G H))) (mid n) /\
+   meq n n (mmul n n n (madd n n (mid n) (mmul n n n G H)) W) (mid n)) ->
+  ricc_step n A G H = Some (A1, G1, H1) ->
+  msym n G1 /\ msym n H1 /\
+  (forall x : list Q, 0 <= qform n x G1) /\ (forall x : list Q, 0 <= qform n x H1) /\
+  (forall x : list Q, 0 <= qform n x (msub n n G1 G)) /\ (forall x : list Q, 0 <= qform n x (msub n n H1 H)).
+Proof. exact ricc_step_psd. Qed.
+Print Assumptions C06_riccati_step_sym_psd_partial.
+
+(* NOT proved (oracle only): when the doubling has converged (A_k = 0) the returned H_k + gamma I is PSD,
+   for a PSD joint stage cost [[Q, N'],[N, R]] and symmetric Q, R *)
+Definition C06_riccati_returned_psd_full : Prop :=
+  forall ns nc (g : Q) (A B Qm R N : list (list Q)) k AGH0 Ak Gk Hk,
+  msym ns Qm -> msym nc R ->
+  (forall x u : list Q, 0 <= qform ns x Qm + qform nc u R + (2#1) * bform nc ns u N x) ->
+  ricc_init ns nc g A B Qm R N = Some AGH0 ->
+  ricc_iter k ns AGH0 = Some (Ak, Gk, Hk) ->
+  meq ns ns Ak (mzero ns ns) ->
+  forall x : list Q, 0 <= qform ns x (madd ns ns Hk (mscale ns ns g (mid ns))).
+
+(* (c) the matrix returned by the Riccati loop, H_k + gamma I, is symmetric (Q, R symmetric; invertibility explicit) *)
+Theorem C06_riccati_returned_symmetric :
+  forall tol max_iter ns nc (g : Q) (A B Qm R N Z : list (list Q)) k X,
+  msym ns Qm -> msym nc R ->
+  (meq nc nc (mmul nc nc nc Z (madd nc nc R (mscale nc nc g (mmul nc ns nc (mtr ns nc B) B)))) (mid nc) /\
+   meq nc nc (mmul nc nc nc (madd nc nc R (mscale nc nc g (mmul nc ns nc (mtr ns nc B) B))) Z) (mid nc)) ->
+  (forall AGH0 i Ai Gi Hi, ricc_init ns nc g A B Qm R N = Some AGH0 -> (i < k)%nat ->
+       ricc_iter i ns AGH0 = Some (Ai, Gi, Hi) ->
+       exists Wi, meq ns ns (mmul ns ns ns Wi (madd ns ns (mid ns) (mmul ns ns ns Gi Hi))) (mid ns) /\
+                  meq ns ns (mmul ns ns ns (madd ns ns (mid ns) (mmul ns ns ns Gi Hi)) Wi) (mid ns)) ->
+  solve_discrete_riccati tol max_iter ns nc g A B Qm R N = RiccOk k X ->
+  msym ns X.
+Proof. exact riccati_returned_symmetric. Qed.
+Print Assumptions C06_riccati_returned_symmetric.
+
+Example lyap_psd_example : msym 2 [[1; 0]; [0; 1]] /\ (forall x : list Q, 0 <= qform 2 x [[1; 0]; [0; 1]]).
+Proof.
+  split.
+  - intros i j Hi Hj. destruct i as [|[|i]]; destruct j as [|[|j]]; try lia; vm_compute; reflexivity.
+  - intros x. change (0 <= bform 2 2 x [[1; 0]; [0; 1]] x). rewrite QE.C07.Proofs.bform_Q. simpl. unfold get; simpl nth.
+    assert (0 <= vget x 0 * vget x 0) by nra. assert (0 <= vget x 1 * vget x 1) by nra.
+    match goal with |- 0 <= ?e => setoid_replace e with (vget x 0 * vget x 0 + vget x 1 * vget x 1) by ring end. lra.
 Qed.
 
 (* Still NOT proved (sampled correspondence + mpmath oracle only): that the hypothesised inverses exist
